@@ -20,8 +20,8 @@ for p in $props; do
     mkdir -p "$scratch/verif"; ln -s /verif/libspec "$scratch/verif/libspec"; ln -s /verif/replaytmpl "$scratch/verif/replaytmpl"; cp /verif/known_findings.json "$scratch/verif/" 2>/dev/null
     out=$(GOVC_REPO="$scratch/repo" GOVC_VERIF="$scratch/verif" ./bin/govc check "$p" --tier quick 2>&1)
     ran=$((ran+1))
-    if echo "$out" | grep -q "^VIOLATION property=$p" && echo "$out" | grep "^  obligation " | grep -q -F -- "$want"; then
-      echo "OK    $p/$name -> $(echo "$out" | grep "^  obligation " | grep -F -- "$want" | head -1 | cut -c1-120)"
+    if echo "$out" | grep -q "^VIOLATION property=$p" && echo "$out" | grep -E "^  (obligation|bounded) " | grep -q -F -- "$want"; then
+      echo "OK    $p/$name -> $(echo "$out" | grep -E "^  (obligation|bounded) " | grep -F -- "$want" | head -1 | cut -c1-120)"
     else
       echo "MISS  $p/$name (expected a failing obligation matching '$want')"; echo "$out" | tail -5 | sed 's/^/      /'
       fail=$((fail+1))
